@@ -1150,3 +1150,40 @@ func structFieldDomain(c *core.Ctx, pkg *packages.Package, info *types.Info, e a
 	}
 	return dom, okAll
 }
+
+// paramAlwaysConstString: obj is a parameter of the unexported function fn,
+// fn never assigns it, and every call of fn in its package passes a string
+// constant in that position.
+func paramAlwaysConstString(c *core.Ctx, fn *core.Func, obj types.Object) bool {
+	if obj == nil || fn.Obj.Exported() || fn.Decl.Type.Params == nil {
+		return false
+	}
+	idx, i := -1, 0
+	for _, f := range fn.Decl.Type.Params.List {
+		for _, n := range f.Names {
+			if fn.Info().ObjectOf(n) == obj {
+				idx = i
+			}
+			i++
+		}
+	}
+	if idx < 0 || len(core.AssignsTo(fn.Info(), fn.Decl, obj)) > 0 {
+		return false
+	}
+	n := 0
+	for _, other := range c.Prog.Funcs(fn.Pkg) {
+		for _, cs := range core.CallsIn(other.Info(), other.Decl.Body, true) {
+			if cs.Fn != fn.Obj {
+				continue
+			}
+			if idx >= len(cs.Call.Args) {
+				return false
+			}
+			if _, ok := core.StringConst(other.Info(), cs.Call.Args[idx]); !ok {
+				return false
+			}
+			n++
+		}
+	}
+	return n > 0
+}
